@@ -172,6 +172,9 @@ impl AsCborValue for CoseKey {
     }
 
     fn to_cbor_value(self) -> Result<Value> {
+        // Extra parameters that sort ahead of the typed fields (only label 0 does) and that lead
+        // `params`, as they do after `canonicalize()`, are emitted ahead of the typed fields.
+        let lead = self.params.iter().take_while(|(l, _)| *l < KTY).count();
         let mut map: Vec<(Value, Value)> = vec![(KTY.to_cbor_value()?, self.kty.to_cbor_value()?)];
         if !self.key_id.is_empty() {
             map.push((KID.to_cbor_value()?, Value::Bytes(self.key_id)));
@@ -185,6 +188,7 @@ impl AsCborValue for CoseKey {
         if !self.base_iv.is_empty() {
             map.push((BASE_IV.to_cbor_value()?, Value::Bytes(self.base_iv)));
         }
+        let typed = map.len();
         let mut seen = BTreeSet::new();
         // The labels already emitted for the typed fields count as seen too.
         for (label, _value) in map.iter() {
@@ -197,6 +201,7 @@ impl AsCborValue for CoseKey {
             seen.insert(label.clone());
             map.push((label.to_cbor_value()?, value));
         }
+        map[..typed + lead].rotate_left(typed);
         Ok(Value::Map(map))
     }
 }
